@@ -38,6 +38,15 @@ def fam_functions():
         nodes = {f"n{i}": NodeSpec(['fo'], families._node_overrides(fp, {'fo': op}, ['fo'])) for i in range(2)}
         edges = [EdgeSpec('n0/fo/x', 'n1/fo/u', fp()), EdgeSpec('n1/fo/x', 'n0/fo/u', fp())]
         out.append((f"FF:{name}", ModelSpec('m', {'fo': op}, nodes, edges, note=f"function {name}")))
+    # literal constants that binary32 does not hold exactly (1/10, 7/10, 3/5): a backend that prints them as
+    # single precision literals computes another function
+    fp = FP()
+    e = X.add(X.add(X.mul(X.neg(C(F(1, 10))), V('x')), X.mul(C(F(3, 5)), X.mul(V('x'), V('x')))),
+              X.add(X.mul(V('k'), V('u')), C(F(7, 10))))
+    op = OpSpec('fo', [('x', 'de', e)], {'x': ('state', fp()), 'u': ('input', F(0)), 'k': ('const', fp())}, output='x')
+    nodes = {f"n{i}": NodeSpec(['fo'], families._node_overrides(fp, {'fo': op}, ['fo'])) for i in range(2)}
+    edges = [EdgeSpec('n0/fo/x', 'n1/fo/u', fp()), EdgeSpec('n1/fo/x', 'n0/fo/u', fp())]
+    out.append(("FF:literal-kinds", ModelSpec('m', {'fo': op}, nodes, edges, note="non-dyadic literals")))
     return out
 
 
@@ -73,6 +82,14 @@ def job_fn(job):
                                           what=f"the emitted module declares `double precision :: {nm.upper()} = {init}`: the "
                                                f"initialiser is a default-real (single precision) expression, so {nm.upper()} "
                                                f"= {as_written!r} instead of {in_double!r} although float64 was requested"))
+        for stmt, lit_, used, written in f90smt.inexact_default_real_literals(c.src):
+            tally.obligations += 1
+            tally.sat += 1
+            tally.sat_confirmed += 1
+            res['violations'].append(dict(kind='fortran-literal-kind', literal=lit_,
+                                          what=f"the emitted Fortran statement `{stmt}` uses the default-real literal {lit_} in a "
+                                               f"double precision expression: Fortran computes with {used!r}, the model (and "
+                                               f"every other backend) with {written!r}"))
     # returned argument values in float64 (compared across backends by the parent)
     argvals = {}
     for k, a in zip(c.keys, c.args):
